@@ -179,18 +179,21 @@ fn exec(op: &Op) -> String {
             // args: pairs (entry index as text, value), applied in order
             let mut m = Metadata::new();
             let mut i = 0;
+            let mut errs: Vec<String> = vec![];
             while i + 1 < op.args.len() {
                 let Some(k) = op.str(i).and_then(|s| s.parse::<usize>().ok()) else { return "BAD-ARG".into() };
                 let Some(v) = op.str(i + 1) else { return "BAD-UTF8".into() };
                 if k >= 14 {
                     return "BAD-ARG".into();
                 }
+                // a rejected value (non-numeric size) is reported and changes nothing: the object is
+                // used on, and what it holds afterwards depends on the accepted calls only
                 if m.read_metadata(ENTRIES[k](), v).is_err() {
-                    return "err".into();
+                    errs.push((i / 2).to_string());
                 }
                 i += 2;
             }
-            show_metadata(&m)
+            format!("e={}|{}", if errs.is_empty() { "-".to_string() } else { errs.join(",") }, show_metadata(&m))
         }
         "pkgdb.iter" => {
             // each arg: kind byte ('f' | 'd'), name, then NUL-separated (file name, content) pairs
